@@ -98,13 +98,17 @@ impl TryFrom<&BoardBuilder> for ChessBoard {
             .set_castling_rights(Black, builder.get_castle_rights(Black))
             .set_move_number(builder.get_move_number())
             .set_moves_since_capture_or_pawn_move(builder.get_moves_since_capture_or_pawn_move())
-            .update_pins_and_checks()
-            .update_terminal_status();
+            .update_pins_and_checks();
 
         board.hash = ZOBRIST.calculate_position_hash(&board);
 
+        // the terminal flag is found by trying moves, which is only safe on a validated position
+        // (e.g. an inconsistent en passant square could remove a king)
         match board.validate() {
-            None => Ok(board),
+            None => {
+                board.update_terminal_status();
+                Ok(board)
+            }
             Some(err) => Err(err),
         }
     }
